@@ -176,7 +176,9 @@ def run_scenario(run: Run, scen: dict, rng: random.Random):
         run.violation("circuit-not-sd", scen, "the region graph is structured-decomposable but the built circuit is not")
         return
     if any(u != C for u in mp["out_units"]) or mp["num_outputs"] != len(rg.outputs):
-        tag = "circuit-outputs" if s["partitions"] else "circuit-outputs-single-region"
+        # D19 (recorded) concerns the sum-product abstractions on a single-region graph only; with explicit
+        # layer factories the library does honour num_classes there
+        tag = "circuit-outputs" if (s["partitions"] or b["kind"] not in ("cp", "cp-t", "tucker")) else "circuit-outputs-single-region"
         run.violation(tag, scen, f"output units {mp['out_units']} (expected {C} each), {mp['num_outputs']} outputs for {len(rg.outputs)} roots")
         return
     run.exact += 1
